@@ -135,6 +135,9 @@ class ResourceManager:
             ReservedResources with reserved resources if successful.
             Returns None if the request could not be fulfilled.
         '''
+        for resource_name, amount in request.items():
+            if amount < 0:
+                raise ValueError(f'Requested amount for {resource_name} is less than 0.')
         filtered_request = {name: n for name, n in request.items() if n > 0}
         if self._can_fulfill_request(filtered_request):
             # Reduce pools of available resources.
